@@ -161,7 +161,7 @@ pub fn run(s: &mut Src, ctx: &mut Ctx) -> Verdict {
     let mut cfg = cfg;
     let mut reconfigured = false;
     let mut engine = build_engine(&kb, &cfg);
-    let rete = if with_rete { Some(Arc::new(Mutex::new(IncrementalEngine::new()))) } else { None };
+    let rete = if with_rete { Some(Arc::new(Mutex::new(crate::core::new_or_default(IncrementalEngine::new)))) } else { None };
     let mut facts = to_facts(&st0);
     let mut asked: Vec<(String, Store, bool)> = Vec::new(); // (goal text, store before, answer)
     let mut nt = false;
@@ -223,7 +223,7 @@ pub fn run(s: &mut Src, ctx: &mut Ctx) -> Verdict {
                 let fresh_answer = {
                     let mut fe = build_engine(&kb, &cfg);
                     let mut ff = to_facts(&before);
-                    let fr = if with_rete && via.is_none() { Some(Arc::new(Mutex::new(IncrementalEngine::new()))) } else { None };
+                    let fr = if with_rete && via.is_none() { Some(Arc::new(Mutex::new(crate::core::new_or_default(IncrementalEngine::new)))) } else { None };
                     match catch(|| fe.query_with_rete_engine(&text, &mut ff, fr)) {
                         Ok(Ok(r)) => r.provable,
                         _ => {
